@@ -211,6 +211,9 @@ namespace ratio
             std::vector<arith_expr> exprs;
             for (const auto &e : expressions)
                 exprs.emplace_back(dynamic_cast<const ast::expression *>(e)->evaluate(scp, ctx));
+            for (size_t i = 1; i < exprs.size(); ++i)
+                if (const auto [lb, ub] = scp.get_core().arith_bounds(exprs[i]); lb == ub && is_zero(lb))
+                    throw std::invalid_argument("division by zero..");
             return scp.get_core().div(exprs);
         }
 
